@@ -73,6 +73,10 @@ func genCase(engine, mode, tier string, r *Rng, id string, i int) []string {
 		}
 	case "sqlw":
 		return genSqlw(r, id, mode)
+	case "qid":
+		return []string{genQid(r, i, mode).Line(id, "QID")}
+	case "sqlr":
+		return []string{genSqlr(r).Line(id, "SQLR")}
 	case "grp":
 		return []string{genGrp(r, tier).Line(id, "GRP")}
 	}
